@@ -562,6 +562,50 @@ def frozen_through_accessors(rep: Report, rng: random.Random):
                           f"{[a.tolist() for a in after]}")
 
 
+def frozen_across_runs(rep: Report, rng: random.Random):
+    """Frozen stays frozen over a HISTORY of training calls: the model a loop returns is trained again (either loop, either
+    order); the leaves frozen at the start are bit-identical at the end and the trainable ones moved in every run."""
+    from flowjax import distributions as ds
+    from flowjax import flows
+    from flowjax.train import fit_to_data, fit_to_variational_target
+    from flowjax.train.losses import ElboLoss
+    from flowjax.wrappers import non_trainable, unwrap
+    x = jnp.asarray(np.random.default_rng(rng.randrange(2**31)).normal(size=(24, 2)))
+    target = ElboLoss(ds.Normal(jnp.zeros(2)).log_prob, num_samples=8)
+
+    def run(kind, model, k):
+        if kind == "data":
+            return fit_to_data(k, model, x, max_epochs=2, batch_size=8, optimizer=optax.sgd(0.05), show_progress=False, return_best=False)[0]
+        return fit_to_variational_target(k, model, target, steps=3, optimizer=optax.sgd(0.05), show_progress=False, return_best=False)[0]
+    for which in ("base", "bijection"):
+        for order in (("data", "data"), ("data", "variational"), ("variational", "data"), ("variational", "variational"),
+                      ("data", "data", "data")):
+            flow = flows.masked_autoregressive_flow(jr.PRNGKey(5), base_dist=ds.Normal(jnp.zeros(2), jnp.ones(2)), flow_layers=1, nn_width=4)
+            flow = eqx.tree_at(lambda f: getattr(f, "base_dist" if which == "base" else "bijection"), flow, replace_fn=non_trainable)
+            frozen0 = [np.asarray(l).copy() for l in jax.tree_util.tree_leaves(unwrap(getattr(flow, "base_dist" if which == "base" else "bijection")))
+                       if eqx.is_inexact_array(l)]
+            other = "bijection" if which == "base" else "base_dist"
+            rep.count(1, ("across-runs", which, order))
+            try:
+                m = flow
+                for j, kind in enumerate(order):
+                    before = [np.asarray(l).copy() for l in jax.tree_util.tree_leaves(unwrap(getattr(m, other))) if eqx.is_inexact_array(l)]
+                    m = run(kind, m, jr.PRNGKey(10 + j))
+                    after = [np.asarray(l) for l in jax.tree_util.tree_leaves(unwrap(getattr(m, other))) if eqx.is_inexact_array(l)]
+                    if all(np.array_equal(a, b) for a, b in zip(before, after)):
+                        rep.machinery_failure(f"frozen_across_runs: run {j} ({kind}) moved nothing that is trainable")
+                frozen1 = [np.asarray(l) for l in jax.tree_util.tree_leaves(unwrap(getattr(m, "base_dist" if which == "base" else "bijection")))
+                           if eqx.is_inexact_array(l)]
+            except Exception as e:  # noqa: BLE001
+                rep.violation({"history": list(order), "frozen": which, "error": type(e).__name__},
+                              f"training runs {order} with frozen {which}: {type(e).__name__}: {str(e)[:200]}")
+                continue
+            if len(frozen0) != len(frozen1) or any(not np.array_equal(a, b) for a, b in zip(frozen0, frozen1)):
+                rep.violation({"history": list(order), "frozen": which, "what": "frozen leaf moved"},
+                              f"the {which} was frozen; after the training runs {order} (each on the model the previous one returned) its "
+                              f"leaves moved: {[a.ravel()[:3].tolist() for a in frozen0]} -> {[b.ravel()[:3].tolist() for b in frozen1]}")
+
+
 def frozen_real_flows(rep: Report, rng: random.Random, count: int, traces: list):
     """Real flows with frozen subsets, trained by both loops with real optimisers: digests per leaf."""
     from flowjax import distributions as ds
@@ -660,6 +704,7 @@ def main():
     pool.map_cases(rep, "harness.c12", "case_transparency", pop, chunk=6, clear_every=10)
     frozen_real_flows(rep, rng, 36 if thorough else 12, traces)
     frozen_through_accessors(rep, rng)
+    frozen_across_runs(rep, rng)
     stats = tracecheck.check(rep, "Trace_Unwrap", "Trace_Unwrap_I.cfg", traces, P_GUARDS, pid=PID,
                              describe=lambda tr: {"tree": tr["cfg"]["term"], "opt": tr["cfg"]["opt"],
                                                   "loop": tr["cfg"]["loop"], "steps": tr["cfg"]["steps"]})
